@@ -151,6 +151,18 @@ impl Prop for PPrintf {
         }
         let dirs: [&str; 15] = ["p", "f", "h", "H", "P", "d", "s", "n", "i", "U", "G", "m", "y", "Y", "l"];
         let mut fmt: Vec<u32> = vec![];
+        // one case in twenty-five (of the first 600) begins with a column wider than any small integer type a formatting
+        // routine might keep the width in (the value is a number or a type letter: plain ASCII)
+        if idx % 25 == 1 && idx < 600 {
+            fmt.push(37);
+            if rng.chance(1, 2) {
+                fmt.push(45);
+            }
+            let w = *rng.pick(&[65535usize, 65536, 65537, 70000, 131072, 200000]);
+            fmt.extend(format!("{}", w).chars().map(|c| c as u32));
+            fmt.push(*rng.pick(&[100u32, 115, 71, 85, 110, 121]));
+            fmt.push(124);
+        }
         for _ in 0..1 + rng.below(if tier == "thorough" { 10 } else { 6 }) {
             match rng.below(10) {
                 0..=4 => {
@@ -162,8 +174,7 @@ impl Prop for PPrintf {
                         // mostly column widths as people write them; now and then a wide column (the padding is written
                         // in pieces: a value of 1..8 characters in 64, 65.., 128.., 192.. columns meets every remainder)
                         // ... and, rarely, a column wider than any integer type a formatting routine might keep the width in
-                        let w = if idx % 40 == 21 && rng.chance(1, 2) { *rng.pick(&[65535usize, 65536, 65537, 70000, 131072, 200000]) }
-                                else if rng.chance(1, 4) { *rng.pick(&[64usize, 128, 192, 256]) + rng.below(9) } else { 1 + rng.below(25) };
+                        let w = if rng.chance(1, 4) { *rng.pick(&[64usize, 128, 192, 256]) + rng.below(9) } else { 1 + rng.below(25) };
                         fmt.extend(format!("{}", w).chars().map(|c| c as u32));
                     }
                     fmt.push(rng.pick(&dirs).chars().next().unwrap() as u32);
